@@ -1,7 +1,7 @@
 #!/usr/bin/env python3
 """Regenerates MANIFEST.json from the table below (run by hand, never by a check)."""
 import json, os
-HERE = os.path.dirname(os.path.abspath(__file__))
+HERE = os.path.dirname(os.path.dirname(os.path.abspath(__file__)))
 CLAIMS = json.load(open(os.path.join(HERE, "claims.json")))
 checks = []
 for pid, c in sorted(CLAIMS["claimed"].items()):
